@@ -544,38 +544,33 @@ def loop_coverage(body, call):
 
 # ------------------------------------------------------------------ comparison normal forms (A10 on branch conditions)
 def comparison_forms(ctx, fn):
-    """{(operandA, operandB) unordered-sorted: canonical comparison} for every comparison that decides a branch in fn
-    (user code of the fn body and of its nested closures); comparisons by trait calls (PartialOrd::lt ...) included"""
+    """{(operandA, operandB) unordered-sorted: {canonical comparison}} for every comparison computed in the user code of fn
+    and of its nested closures (branch conditions, returned predicates, trait comparisons PartialOrd::lt ...)"""
     from mir import canon
     out = {}
     defs = [d for d in ctx.facts.body_defs() if d == fn or d.startswith(fn + '::{closure')]
     for d in sorted(defs):
         b = ctx.body(d)
-        seen_exprs = []
-        for bb, t, e in switch_exprs(b):
-            if t.get('ty') != 'bool':
-                continue
-            seen_exprs.append(b.pexpr_operand(t['op']))
-        # closures used as predicates return the comparison
-        if d != fn:
-            for rb, kind, det in b.return_sites():
-                pass
-            for blk in sorted(b.reach):
-                for s in b.stmts(blk):
-                    if s.get('lhs') == [0] and not s.get('x', '').startswith('m:'):
-                        seen_exprs.append(b._pexpr_rvalue(s['rv'], 0, frozenset()))
-        for e in seen_exprs:
-            for x in walk(e):
-                if x[0] == 'bin' and x[1] in ('Lt', 'Le', 'Gt', 'Ge', 'Eq', 'Ne'):
+        for blk in sorted(b.reach):
+            for s in b.stmts(blk):
+                rv = s.get('rv')
+                if not rv or s.get('x', '').startswith('m:'):
+                    continue
+                if rv['r'] == 'bin' and rv['op'] in ('Lt', 'Le', 'Gt', 'Ge', 'Eq', 'Ne'):
+                    x = b._pexpr_rvalue(rv, 0, frozenset())
                     a, c = canon(x[2], 0, 1), canon(x[3], 0, 1)
+                    out.setdefault(tuple(sorted((a, c))), set()).add(canon(x, 0, 1))
+            t = b.term(blk)
+            if t.get('t') == 'call' and not t.get('x', '').startswith('m:'):
+                decl = t.get('fn') or ''
+                op = decl.split('::')[-1]
+                if op in ('lt', 'le', 'gt', 'ge', 'eq', 'ne') and ('PartialOrd' in decl or 'PartialEq' in decl) and len(t.get('args', [])) == 2:
+                    a, c = canon(b.pexpr_operand(t['args'][0]), 0, 1), canon(b.pexpr_operand(t['args'][1]), 0, 1)
                     key = tuple(sorted((a, c)))
-                    out.setdefault(key, set()).add(canon(x, 0, 1))
-                elif x[0] == 'call' and x[1].split('::')[-1] in ('lt', 'le', 'gt', 'ge', 'eq', 'ne') and len(x[2]) == 2 and ('PartialOrd' in x[1] or 'PartialEq' in x[1]):
-                    a, c = canon(x[2][0], 0, 1), canon(x[2][1], 0, 1)
-                    key = tuple(sorted((a, c)))
-                    op = x[1].split('::')[-1]
                     form = {'lt': '(%s < %s)', 'le': '(%s <= %s)', 'gt': '(%s < %s)', 'ge': '(%s <= %s)', 'eq': '(%s == %s)', 'ne': '(%s != %s)'}[op]
                     if op in ('gt', 'ge'):
+                        a, c = c, a
+                    elif op in ('eq', 'ne') and c < a:
                         a, c = c, a
                     out.setdefault(key, set()).add(form % (a, c))
     return out
